@@ -153,8 +153,18 @@ Definition sget_typed (rs : list ritem) (key : list Z) (ty : Z) : res (Z * list 
   | Some (t, len, b) => if t =? ty then Ok (len, b) else Err T_KAS   (* KAS_ERR_TYPE_MISMATCH *)
   end.
 
-(* L[0] <= 0.0 on the IEEE double with these little-endian bytes (NaN compares false) *)
-Definition double_le_zero (b : list Z) : bool :=
+(* !(L[0] > 0.0) on the IEEE double with these little-endian bytes (fix cfb2bb6: a NaN is
+   rejected like zero and negative values) *)
+Definition double_not_positive (b : list Z) : bool :=
+  let bits := le_dec b in
+  let frac := bits mod 4503599627370496 in
+  let ex := (bits / 4503599627370496) mod 2048 in
+  let sign := bits / 9223372036854775808 in
+  let is_nan := (ex =? 2047) && negb (frac =? 0) in
+  is_nan || (sign =? 1) || ((ex =? 0) && (frac =? 0)).
+
+(* the pinned (pre-fix) test `L[0] <= 0.0`, which a NaN passed: kept for the historical record *)
+Definition double_le_zero_pinned (b : list Z) : bool :=
   let bits := le_dec b in
   let frac := bits mod 4503599627370496 in
   let ex := (bits / 4503599627370496) mod 2048 in
@@ -323,7 +333,7 @@ Definition tsk_load_bytes (skip_tables skip_refseq : bool) (s : list Z) : res (t
   do '(ll, lb) <- sget_typed rs (fmt_key 2) (fmt_ty 2);
   if negb (ll =? 1) then Err T_FILE_FORMAT else
   do L <- content (fmt_ty 2) ll lb;
-  if double_le_zero L then Err T_BAD_SEQUENCE_LENGTH else
+  if double_not_positive L then Err T_BAD_SEQUENCE_LENGTH else
   do '(ul, ub) <- sget_typed rs (fmt_key 3) (fmt_ty 3);
   if negb (ul =? tsk_uuid_size) then Err T_FILE_FORMAT else
   do uuid <- content (fmt_ty 3) ul ub;
